@@ -11,19 +11,22 @@
  * reaches it.
  *
  * HOW: the body of execute_sort_plan is verified with its six callees REPLACED by contracts stated over one ghost
- * description of the scene (LAYOUT below); each callee contract is ENFORCED against the real callee in its own
- * group of this file (a5_leaf_*), so nothing is assumed about the unit's own code.  The composition is loop-free.
+ * description of the scene (below); each callee contract is ENFORCED against the real callee in its own group of
+ * this file (a5_leaf_*), so nothing is assumed about the unit's own code.  The composition is loop-free.
  *
- * LAYOUT (the bound of every group of this file, chosen for cost: memcpy with a symbolic length and symbolic
- * offsets into small objects are what CBMC pays for here, HOWTO pitfalls / DESIGN 3):
- *   - the mapped stream is an object of A5_MEM bytes; its last 12 bytes are the event `next` (the OU] that closes
- *     the region; only its address matters), before it lie K = 1..A5_K whole NON-JUMBO events of 12..28 bytes each
- *     (every size the flags byte can announce), before them >= 16 arbitrary bytes (earlier events);
- *   - the ring has A5_RN slots (look-back A5_RN - 1) and holds the last min(K, count) of these events, any
+ * THE SCENE -- the bound of every group of this file, chosen for cost (memcpy with a symbolic length and reads at
+ * symbolic offsets are what CBMC pays for here: HOWTO pitfalls, DESIGN 3; the first version of this file with
+ * symbolic event sizes produced 9 M clauses for TWO events and did not finish):
+ *   - the mapped stream is an object of A5_MEM bytes: 16 arbitrary bytes (earlier events), then K = 1..A5_K whole
+ *     NON-JUMBO events whose SIZES ARE COMPILE-TIME CONSTANTS of the group (A5_S0..A5_S3, each one of the sizes a
+ *     flags byte can announce: 12, 14..28; groups exist for several MIXED patterns), then `next` (the OU] that
+ *     closes the region; 12 bytes, only its address matters), then arbitrary bytes; all CONTENT is arbitrary
+ *     apart from the flags nibbles announcing these sizes and clocks below 2^63 (known finding: cmp_ev is signed);
+ *   - the ring has A5_RN slots (look-back A5_RN - 1) and holds the last min(K, count) of these events, in any
  *     head/tail position (wrapped or not) admitted by the ring invariant of stream_winsort;
- *   - bad0 is any of the K events; clocks below 2^63 (known finding: cmp_ev compares as signed).
+ *   - bad0 is any of the K events.
  * Outside the unit (trusted, most general): qsort (leaf sort_buf), pwrite (leaf write_stream), malloc / calloc /
- * free, ovni_ev_size (the real rt/ovni.c is included: sizes come from the flags bytes of the events).
+ * free; ovni_ev_size is the real rt/ovni.c (sizes come from the flags bytes of the events).
  * ASSUMED (DESIGN 4, C16): bytes written with pwrite to the stream file are visible through the MAP_PRIVATE mapping
  * (Linux) -- the code relies on it (rebuild_ring and ring_check re-read the mapping after the write); here the
  * mapping IS the file: the pwrite model stores into it. */
@@ -41,24 +44,44 @@ int g_said;
 #ifndef A5_RN
 #define A5_RN 4
 #endif
+#ifndef A5_S0
+#define A5_S0 12
+#endif
+#ifndef A5_S1
+#define A5_S1 28
+#endif
+#ifndef A5_S2
+#define A5_S2 16
+#endif
+#ifndef A5_S3
+#define A5_S3 20
+#endif
 #define A5_KMAX 4
 #define A5_RNMAX 4
+#define A5_SIZE_OK(s) ((s) == 12 || ((s) >= 14 && (s) <= 28))
 _Static_assert(A5_K >= 1 && A5_K <= A5_KMAX && A5_RN >= 2 && A5_RN <= A5_RNMAX, "bounds of this file");
-#define A5_MEM (16 + 28 * A5_K + 12)
+_Static_assert(A5_SIZE_OK(A5_S0) && A5_SIZE_OK(A5_S1) && A5_SIZE_OK(A5_S2) && A5_SIZE_OK(A5_S3), "sizes a flags byte can announce");
+#define A5_O0 16L
+#define A5_O1 (A5_O0 + A5_S0)
+#define A5_O2 (A5_O1 + A5_S1)
+#define A5_O3 (A5_O2 + A5_S2)
+#define A5_O4 (A5_O3 + A5_S3)
+#define A5_MEM (A5_O4 + 12 + 16)
+/* offset of input event k (k == K: of `next`); a constant whenever k is */
+#define OC(k) ((k) <= 0 ? A5_O0 : (k) == 1 ? A5_O1 : (k) == 2 ? A5_O2 : (k) == 3 ? A5_O3 : A5_O4)
+#define SC(k) ((k) <= 0 ? (long) A5_S0 : (k) == 1 ? (long) A5_S1 : (k) == 2 ? (long) A5_S2 : (long) A5_S3)
 
 /* ------------------------------------------------------------------ the ghost scene */
-uint8_t *g_base;               /* the mapped stream == the stream file */
+uint8_t a5_mem[A5_MEM];        /* the mapped stream == the stream file (arbitrary content: statics are havocked) */
 long g_K;                      /* events laid out before `next` */
-long g_O[A5_KMAX + 1];         /* g_O[k]: offset of event k; g_O[g_K]: offset of `next` */
-long g_P[A5_KMAX + 1];         /* the same AFTER sorting (events of the region have moved) */
+long g_P[A5_KMAX + 1];         /* offset of OUTPUT event j after sorting (events of the region have moved) */
 long g_perm[A5_KMAX];          /* output event j is input event g_perm[j] (chosen by qsort) */
 long g_b;                      /* bad0 is event g_b */
-long g_f;                      /* first is event g_f (named by find_destination) */
+long g_f;                      /* first is event g_f: the destination the specification names (bound in requires, assigned by nobody) */
 long g_s, g_bb;                /* observers: an arbitrary INPUT event and an arbitrary byte position inside it */
 unsigned char g_oldbyte;       /* that byte before the call */
 long g_pos; unsigned char g_posbyte;   /* observer: an arbitrary byte of the mapping, and its value before the call */
 
-/* most general models of the externals that the groups of this file do not replace */
 long nondet_long(void);
 uint64_t nondet_u64(void);
 unsigned g_malloc_fail;
@@ -90,7 +113,7 @@ pwrite(int fd, const void *buf, size_t count, off_t offset)
 	size_t w = nondet_size_t();
 	__CPROVER_assume(w <= count && (count == 0 || w >= 1));
 	VASSERT(offset >= 0 && (size_t) offset + w <= A5_MEM, "pwrite inside the stream file (its size does not change)");
-	if (w > 0) memcpy(g_base + offset, buf, w);
+	if (w > 0) memcpy(a5_mem + offset, buf, w);
 	g_pw_next = offset + (off_t) w;
 	return (ssize_t) w;
 }
@@ -109,9 +132,9 @@ qsort(void *base, size_t nmemb, size_t size, int (*compar)(const void *, const v
 	struct ovni_ev **t = base;
 	struct ovni_ev *old[A5_KMAX];
 	for (long i = 0; i < A5_K; i++) if (i < (long) nmemb) old[i] = t[i];
-	for (long i = 0; i < A5_K; i++) {
-		g_P[i] = g_O[i];
-		if (i < g_f) g_perm[i] = i;
+	for (long i = 0; i <= A5_K; i++) {
+		if (i <= g_f) g_P[i] = OC(i);
+		if (i < g_f && i < A5_K) g_perm[i] = i;
 	}
 	for (long i = 0; i < A5_K; i++) {
 		if (i >= (long) nmemb) continue;
@@ -120,7 +143,7 @@ qsort(void *base, size_t nmemb, size_t size, int (*compar)(const void *, const v
 		for (long j = 0; j < i; j++) __CPROVER_assume(g_perm[g_f + j] != g_f + p);   /* a permutation */
 		g_perm[g_f + i] = g_f + p;
 		t[i] = old[p];
-		g_P[g_f + i + 1] = g_P[g_f + i] + (g_O[g_f + p + 1] - g_O[g_f + p]);
+		g_P[g_f + i + 1] = g_P[g_f + i] + SC(g_f + p);
 	}
 	for (long i = 0; i + 1 < A5_K; i++) {
 		if (i + 1 >= (long) nmemb) continue;
@@ -153,36 +176,35 @@ uint64_t ovni_ev_get_clock(const struct ovni_ev *ev) { return ev->header.clock; 
 #define RV __CPROVER_return_value
 #define OLD(e) __CPROVER_old(e)
 
-/* ------------------------------------------------------------------ the scene, as predicates (spec functions: used in contract clauses only) */
-#define MEMB(off) (g_base[(off)])
+/* ------------------------------------------------------------------ the scene, as predicates (spec functions: used in contract clauses only).
+ * Every memory access of a spec function is at a LITERAL offset: symbolic positions (g_f, g_P[j]) are matched against
+ * the finitely many candidates. */
 #define CLKAT(m, off) (*(const uint64_t *) ((const uint8_t *) (m) + (off) + 4))
 #define SIZE_OF_FLAGS(fl) (12L + ((((fl) & 0x0f) == 0) ? 0L : (long) ((fl) & 0x0f) + 1L))
-/* offsets: g_K events of 12..28 bytes, `next` in the last 12 bytes of the object, >= 16 bytes before event 0 */
-static _Bool sc_shape(const long *O)
-{
-	_Bool ok = (1 <= g_K) & (g_K <= A5_K) & (O[0] >= 16);
-	for (long k = 0; k < A5_K; k++)
-		if (k < g_K) ok = ok & (O[k + 1] - O[k] >= 12) & (O[k + 1] - O[k] <= 28) & (O[k + 1] - O[k] != 13) & (O[k] >= 16) & (O[k] <= A5_MEM - 24);
-	return ok & (O[g_K < 0 || g_K > A5_K ? 0 : g_K] == A5_MEM - 12);
-}
-/* the flags bytes found in memory `m` (whose byte 0 is offset `m0` of the layout) announce exactly the sizes of the
- * layout, for events from..g_K-1; non-jumbo; clocks below 2^63 */
-static _Bool sc_wf(const uint8_t *m, long m0, const long *O, long from)
+#define SHAPE (1 <= g_K && g_K <= A5_K)
+/* byte / clock of the mapping at a symbolic offset; of a buffer (holding a copy of the region) at a symbolic offset */
+#define A5_REGMAX (A5_O4 - A5_O0)
+static uint8_t sc_mb(long off) { for (long c = A5_O0; c < A5_O4; c++) if (off == c) return a5_mem[c]; return 0; }
+static uint64_t sc_mc(long off) { for (long c = A5_O0; c < A5_O4; c++) if (off == c) return CLKAT(a5_mem, c); return 0; }
+static uint8_t sc_bb(const uint8_t *m, long rel) { for (long c = 0; c < A5_REGMAX; c++) if (rel == c) return m[c]; return 0; }
+static uint64_t sc_bc(const uint8_t *m, long rel) { for (long c = 0; c + 12 <= A5_REGMAX; c++) if (rel == c) return CLKAT(m, c); return 0; }
+/* the flags bytes of the INPUT events from..g_K-1 found in the mapping announce the sizes of the scene; non-jumbo; clocks < 2^63 */
+static _Bool sc_wf_in(long from)
 {
 	_Bool ok = 1;
 	for (long k = 0; k < A5_K; k++)
 		if (k >= from && k < g_K) {
-			uint8_t fl = m[O[k] - m0];
-			ok = ok & ((fl & OVNI_EV_JUMBO) == 0) & (O[k + 1] - O[k] == SIZE_OF_FLAGS(fl)) & (CLKAT(m, O[k] - m0) < (1UL << 63));
+			uint8_t fl = a5_mem[OC(k)];
+			ok = ok & ((fl & OVNI_EV_JUMBO) == 0) & (SC(k) == SIZE_OF_FLAGS(fl)) & (CLKAT(a5_mem, OC(k)) < (1UL << 63));
 		}
 	return ok;
 }
-static uint64_t sc_clk(long k) { return CLKAT(g_base, g_O[k]); }
+static uint64_t sc_clk(long k) { for (long c = 0; c < A5_K; c++) if (k == c) return CLKAT(a5_mem, OC(c)); return 0; }
 /* smallest clock of [bad0, next) */
 static uint64_t sc_minclk(void)
 {
 	uint64_t m = sc_clk(g_b);
-	for (long k = 0; k < A5_K; k++) if (k > g_b && k < g_K && sc_clk(k) < m) m = sc_clk(k);
+	for (long k = 0; k < A5_K; k++) if (k > g_b && k < g_K && CLKAT(a5_mem, OC(k)) < m) m = CLKAT(a5_mem, OC(k));
 	return m;
 }
 
@@ -193,9 +215,8 @@ static uint64_t sc_minclk(void)
 #define CNT(r) RING_COUNT((r)->head, (r)->tail, (long) A5_RN)
 #define DISTP(r, p) RING_COUNT((r)->head, (long) (p), (long) A5_RN)
 #define POSJ(r, j) (((r)->head + (j)) % A5_RN)
-/* slot p, if live, points to event K - count + dist(p) (of layout O) */
-#define SLOT_OK(r, p, O) ((p) >= A5_RN || DISTP(r, p) >= CNT(r) || (r)->ev[(p)] == (struct ovni_ev *) (g_base + (O)[g_K - CNT(r) + DISTP(r, p)]))
-#define SLOTS_OK(r, O) (SLOT_OK(r, 0, O) && SLOT_OK(r, 1, O) && SLOT_OK(r, 2, O) && SLOT_OK(r, 3, O))
+/* pointer to input event k / to layout offset off of the mapping, as a selection among literals */
+#define EVPTR_O(k) ((struct ovni_ev *) ((k) <= 0 ? a5_mem + A5_O0 : (k) == 1 ? a5_mem + A5_O1 : (k) == 2 ? a5_mem + A5_O2 : (k) == 3 ? a5_mem + A5_O3 : a5_mem + A5_O4))
 /* the window never lost an event unless it is full; it cannot hold more events than exist */
 #define WINDOW_OK(r) (CNT(r) <= g_K && (CNT(r) == g_K || CNT(r) == A5_RN - 1))
 /* live index (0 = oldest) of the most recent window entry whose clock is below `target`; -1 if none */
@@ -205,3 +226,345 @@ static long sc_destj(long cnt, uint64_t target)
 		if (j < cnt && sc_clk(g_K - cnt + j) < target) return j;
 	return -1;
 }
+
+/* ------------------------------------------------------------------ scene objects (harness-owned; statics are havocked by DFCC, the harness re-links them) */
+struct ring a5_ring;
+struct ovni_ev *a5_slots[A5_RNMAX];
+struct sortplan a5_sp;
+#define R (&a5_ring)
+#define RING_SHAPE(r) ((r) == R && R->size == A5_RN && __CPROVER_pointer_equals(R->ev, a5_slots))
+static void a5_link(void) { a5_ring.size = A5_RN; a5_ring.ev = a5_slots; a5_sp.r = &a5_ring; a5_sp.base = a5_mem; }
+#define INREG(j) ((j) >= g_f && (j) < g_K)
+#define SZ_P(j) (g_P[(j) + 1] - g_P[(j)])
+#define PERMJ(j) ((g_perm[(j)] >= 0 && g_perm[(j)] < A5_K) ? g_perm[(j)] : 0)
+/* slot p of the ring, if live, points to input event K - count + dist(p) */
+#define SLOT_OK(r, p) ((p) >= A5_RN || DISTP(r, p) >= CNT(r) || __CPROVER_pointer_equals((r)->ev[(p)], EVPTR_O(g_K - CNT(r) + DISTP(r, p))))
+#define SLOTS_OK(r) (SLOT_OK(r, 0) && SLOT_OK(r, 1) && SLOT_OK(r, 2) && SLOT_OK(r, 3))
+
+/* the output layout is the input layout with the events g_f .. g_K-1 permuted */
+static _Bool sc_prange(void)
+{
+	_Bool ok = 1;
+	for (long j = 0; j <= A5_KMAX; j++) ok = ok & (0 <= g_P[j]) & (g_P[j] <= A5_MEM);
+	return ok;
+}
+static _Bool sc_perm(void)
+{
+	if (!sc_prange() || !SHAPE) return 0;
+	_Bool ok = (0 <= g_f) & (g_f < g_K);
+	for (long j = 0; j <= A5_K; j++) {
+		if (j <= g_f) ok = ok & (g_P[j] == OC(j));
+		if (j < A5_K && INREG(j)) {
+			ok = ok & (g_f <= g_perm[j]) & (g_perm[j] < g_K);
+			long pj = PERMJ(j);
+			long sz = 0;
+			for (long c = 0; c < A5_K; c++) if (pj == c) sz = SC(c);
+			ok = ok & (SZ_P(j) == sz);
+			for (long i = 0; i < j; i++) if (INREG(i)) ok = ok & (g_perm[i] != g_perm[j]);
+		}
+	}
+	return ok;
+}
+/* output layout sane even before anything is known about the permutation (what write_stream / rebuild_ring need) */
+static _Bool sc_pshape(void)
+{
+	if (!sc_prange()) return 0;
+	_Bool ok = (0 <= g_f) & (g_f < g_K) & SHAPE;
+	for (long j = 0; j <= A5_K; j++) {
+		if (j <= g_f) ok = ok & (g_P[j] == OC(j));
+		if (j < A5_K && INREG(j)) ok = ok & (SZ_P(j) >= 12) & (SZ_P(j) <= 28);
+		if (j == g_K) ok = ok & (g_P[j] == OC(j));
+	}
+	return ok;
+}
+/* buffer `m` (byte 0 == the start of the region) holds at the OUTPUT layout the events the mapping holds at the INPUT
+ * layout, permuted: flags byte, clock and the observed byte of every event of the region */
+static _Bool sc_same_buf(const uint8_t *m)
+{
+	_Bool ok = 1;
+	for (long j = 0; j < A5_K; j++)
+		if (INREG(j)) {
+			long rel = g_P[j] - g_P[g_f < 0 || g_f >= A5_K ? 0 : g_f];
+			for (long c = 0; c < A5_K; c++) if (PERMJ(j) == c) {
+				ok = ok & (sc_bb(m, rel) == a5_mem[OC(c)]) & (sc_bc(m, rel) == CLKAT(a5_mem, OC(c)));
+				if (g_bb < SC(c)) ok = ok & (sc_bb(m, rel + g_bb) == sc_mb(OC(c) + g_bb));
+			}
+		}
+	return ok;
+}
+/* the flags bytes found in buffer `m` / in the mapping at the OUTPUT layout announce the output sizes; non-jumbo; clocks < 2^63 */
+static _Bool sc_wf_buf(const uint8_t *m)
+{
+	_Bool ok = 1;
+	for (long j = 0; j < A5_K; j++)
+		if (INREG(j)) {
+			long rel = g_P[j] - g_P[g_f < 0 || g_f >= A5_K ? 0 : g_f];
+			uint8_t fl = sc_bb(m, rel);
+			ok = ok & ((fl & OVNI_EV_JUMBO) == 0) & (SZ_P(j) == SIZE_OF_FLAGS(fl)) & (sc_bc(m, rel) < (1UL << 63));
+		}
+	return ok;
+}
+static _Bool sc_wf_out(void)
+{
+	_Bool ok = 1;
+	for (long j = 0; j < A5_K; j++)
+		if (INREG(j)) {
+			uint8_t fl = sc_mb(g_P[j]);
+			ok = ok & ((fl & OVNI_EV_JUMBO) == 0) & (SZ_P(j) == SIZE_OF_FLAGS(fl)) & (sc_mc(g_P[j]) < (1UL << 63));
+		}
+	return ok;
+}
+/* the mapping holds at the OUTPUT layout exactly what buffer `n` holds there: flags, clock, observed byte */
+static _Bool sc_copy(const uint8_t *n)
+{
+	_Bool ok = 1;
+	for (long j = 0; j < A5_K; j++)
+		if (INREG(j)) {
+			long rel = g_P[j] - g_P[g_f < 0 || g_f >= A5_K ? 0 : g_f];
+			ok = ok & (sc_mb(g_P[j]) == sc_bb(n, rel)) & (sc_mc(g_P[j]) == sc_bc(n, rel));
+			if (g_bb < SZ_P(j)) ok = ok & (sc_mb(g_P[j] + g_bb) == sc_bb(n, rel + g_bb));
+		}
+	return ok;
+}
+/* clocks of the region at the output layout are non-decreasing (unsigned): in buffer `m` / in the mapping */
+static _Bool sc_sorted_buf(const uint8_t *m)
+{
+	_Bool ok = 1;
+	for (long j = 0; j + 1 < A5_K; j++)
+		if (INREG(j) && j + 1 < g_K) {
+			long f0 = g_P[g_f < 0 || g_f >= A5_K ? 0 : g_f];
+			ok = ok & (sc_bc(m, g_P[j] - f0) <= sc_bc(m, g_P[j + 1] - f0));
+		}
+	return ok;
+}
+static _Bool sc_sorted_out(void)
+{
+	_Bool ok = 1;
+	for (long j = 0; j + 1 < A5_K; j++)
+		if (INREG(j) && j + 1 < g_K) ok = ok & (sc_mc(g_P[j]) <= sc_mc(g_P[j + 1]));
+	return ok;
+}
+#ifdef A5_STABLE
+static _Bool sc_stable_buf(const uint8_t *m)
+{
+	_Bool ok = 1;
+	for (long j = 0; j + 1 < A5_K; j++)
+		if (INREG(j) && j + 1 < g_K) {
+			long f0 = g_P[g_f < 0 || g_f >= A5_K ? 0 : g_f];
+			if (sc_bc(m, g_P[j] - f0) == sc_bc(m, g_P[j + 1] - f0)) ok = ok & (g_perm[j] < g_perm[j + 1]);
+		}
+	return ok;
+}
+static _Bool sc_stable_out(void)
+{
+	_Bool ok = 1;
+	for (long j = 0; j + 1 < A5_K; j++)
+		if (INREG(j) && j + 1 < g_K && sc_mc(g_P[j]) == sc_mc(g_P[j + 1])) ok = ok & (g_perm[j] < g_perm[j + 1]);
+	return ok;
+}
+#endif
+/* slots start, start+1, ... (circular) point to the consecutive events g_f, g_f+1, ... of the OUTPUT layout; `n` of them */
+#define RDIST(start, p) RING_COUNT((long) (start), (long) (p), (long) A5_RN)
+#define OUTJ(start, p) (g_f + RDIST(start, p) < 0 || g_f + RDIST(start, p) > A5_K ? 0 : g_f + RDIST(start, p))
+#define REPOINTED(start, p, n) ((p) >= A5_RN || RDIST(start, p) >= (n) || __CPROVER_pointer_equals(a5_slots[(p)], (struct ovni_ev *) (a5_mem + g_P[OUTJ(start, p)])))
+#define REPOINTED_ALL(start, n) (REPOINTED(start, 0, n) && REPOINTED(start, 1, n) && REPOINTED(start, 2, n) && REPOINTED(start, 3, n))
+#define KEPT(start, p, n) ((p) >= A5_RN || RDIST(start, p) < (n) || a5_slots[(p)] == OLD(a5_slots[(p)]))
+#define KEPT_ALL(start, n) (KEPT(start, 0, n) && KEPT(start, 1, n) && KEPT(start, 2, n) && KEPT(start, 3, n))
+
+/* ================================================================= callee contracts (replace the calls in a5_execute_sort_plan; each ENFORCED in a5_leaf_*) */
+uint64_t cr_find_min_clock(uint8_t *src, uint8_t *end)
+__CPROVER_requires(SHAPE && 0 <= g_b && g_b < g_K)
+__CPROVER_requires(__CPROVER_pointer_equals(src, (uint8_t *) EVPTR_O(g_b)) && __CPROVER_pointer_equals(end, (uint8_t *) EVPTR_O(g_K)))
+__CPROVER_requires(sc_wf_in(g_b))
+__CPROVER_assigns()
+/* the smallest (unsigned) clock of [bad0, next) */
+__CPROVER_ensures(RV == sc_minclk())
+;
+ssize_t cr_find_destination(struct ring *r, uint64_t clock)
+__CPROVER_requires(RING_SHAPE(r) && RING_INV(R) && SHAPE && WINDOW_OK(R))
+__CPROVER_requires(SLOTS_OK(R))
+__CPROVER_requires(g_said == 0 && g_die_ok == 0 && DIAG_PRE)
+__CPROVER_assigns(g_said, DIAG_FRAME)
+/* the most recent window entry with a clock STRICTLY below the target; none and the window still reaches the first
+ * event of the stream: that one (head == 0); none and the window is full: -1, and it says so */
+__CPROVER_ensures(RV == (sc_destj(CNT(R), clock) >= 0 ? POSJ(R, sc_destj(CNT(R), clock)) : CNT(R) < A5_RN - 1 ? 0 : -1))
+__CPROVER_ensures((RV == -1) == (g_said != 0) && g_err == OLD(g_err) + (RV == -1 ? 2u : 0u) && g_diag == OLD(g_diag) + (RV == -1 ? 2u : 0u) && g_warn == OLD(g_warn))
+;
+void cr_sort_buf(uint8_t *src, uint8_t *buf, int64_t bufsize)
+__CPROVER_requires(SHAPE && 0 <= g_f && g_f < g_K && 0 <= g_bb && g_bb < 28)
+__CPROVER_requires(__CPROVER_pointer_equals(src, (uint8_t *) EVPTR_O(g_f)) && bufsize == OC(g_K) - OC(g_f))
+__CPROVER_requires(sc_wf_in(g_f))
+__CPROVER_requires(__CPROVER_w_ok(buf, (size_t) bufsize) && !__CPROVER_same_object(buf, a5_mem))
+__CPROVER_assigns(__CPROVER_object_upto(buf, (size_t) bufsize), __CPROVER_object_whole(g_P), __CPROVER_object_whole(g_perm), g_qsort_calls, g_malloc_fail, g_die_ok)
+/* buf receives the events of [src, src + bufsize): a permutation of whole events (sizes preserved) ... */
+__CPROVER_ensures(sc_perm() && sc_same_buf(buf) && sc_wf_buf(buf))
+/* ... in non-decreasing clock order */
+__CPROVER_ensures(sc_sorted_buf(buf))
+#ifdef A5_STABLE
+__CPROVER_ensures(sc_stable_buf(buf))
+#endif
+__CPROVER_ensures(g_qsort_calls == OLD(g_qsort_calls) + 1 && g_die_ok == OLD(g_die_ok))
+;
+void cr_write_stream(int fd, void *base, void *dst, const void *src, size_t size)
+__CPROVER_requires(sc_pshape() && 0 <= g_bb && g_bb < 28)
+__CPROVER_requires(base == (void *) a5_mem && __CPROVER_pointer_equals(dst, (void *) EVPTR_O(g_f)) && size == (size_t) (OC(g_K) - OC(g_f)))
+__CPROVER_requires(__CPROVER_r_ok(src, size) && !__CPROVER_same_object(src, a5_mem))
+__CPROVER_requires(g_pw_calls == 0 && g_pw_gap == 0 && g_pw_fail == 0)
+/* frame: the whole mapping is havocked (a constant-size havoc is what CBMC encodes cheaply); that only [dst, dst + size)
+ * changes is the clause on the observed byte g_pos below */
+__CPROVER_assigns(__CPROVER_object_whole(a5_mem), g_pw_calls, g_pw_fd, g_pw_first, g_pw_next, g_pw_gap, g_pw_fail, g_die_ok)
+/* one gap-free run of successful pwrites on fd covering exactly the region ... */
+__CPROVER_ensures(g_pw_fail == 0 && g_pw_gap == 0 && g_pw_calls >= 1 && g_pw_fd == fd && g_pw_first == OC(g_f) && g_pw_next == OC(g_K) && g_die_ok == OLD(g_die_ok))
+/* ... after which the file (== the mapping) holds the bytes of src, and no byte outside the region has changed */
+__CPROVER_ensures(sc_copy((const uint8_t *) src))
+__CPROVER_ensures(!(0 <= g_pos && g_pos < A5_MEM) || (g_pos >= OC(g_f) && g_pos < OC(g_K)) || a5_mem[g_pos] == OLD(a5_mem[g_pos]))
+;
+void cr_rebuild_ring(struct ring *r, long long start, struct ovni_ev *first, struct ovni_ev *last)
+__CPROVER_requires(RING_SHAPE(r) && RING_RANGE(R) && sc_pshape())
+__CPROVER_requires(0 <= start && start < A5_RN && RING_COUNT((long) start, R->tail, (long) A5_RN) == g_K - g_f)
+__CPROVER_requires(__CPROVER_pointer_equals(first, EVPTR_O(g_f)) && __CPROVER_pointer_equals(last, EVPTR_O(g_K)))
+__CPROVER_requires(sc_wf_out() && g_die_ok == 0)
+__CPROVER_assigns(__CPROVER_object_whole(a5_slots))
+__CPROVER_ensures(REPOINTED_ALL(start, g_K - g_f) && KEPT_ALL(start, g_K - g_f))
+;
+void cr_ring_check(struct ring *r, long long start)
+__CPROVER_requires(RING_SHAPE(r) && RING_RANGE(R) && sc_pshape())
+__CPROVER_requires(0 <= start && start < A5_RN && RING_COUNT((long) start, R->tail, (long) A5_RN) == g_K - g_f)
+__CPROVER_requires(REPOINTED_ALL(start, g_K - g_f))
+/* "Invariant: the ring buffer is always sorted here": asserted where the call is replaced, so ring_check cannot die */
+__CPROVER_requires(sc_sorted_out() && g_die_ok == 0)
+__CPROVER_assigns()
+;
+
+/* ================================================================= execute_sort_plan (composition: loop-free) */
+#ifdef A5_EXEC
+uint64_t g_min; long g_dj, g_cnt, g_head;   /* pre-state: smallest clock of [bad0, next), destination (live index), window size */
+int g_fd;
+long w_K, w_b, w_cnt, w_head, w_dj;
+WITNESS(execute_sort_plan);
+int c_execute_sort_plan(struct sortplan *sp)
+__CPROVER_requires(sp == &a5_sp && __CPROVER_pointer_equals(sp->r, R) && __CPROVER_pointer_equals(sp->base, a5_mem) && sp->fd == g_fd)
+__CPROVER_requires(RING_SHAPE(R) && RING_INV(R) && SHAPE && WINDOW_OK(R))
+__CPROVER_requires(SLOTS_OK(R))
+__CPROVER_requires(sc_wf_in(0))
+__CPROVER_requires(0 <= g_b && g_b < g_K && __CPROVER_pointer_equals(sp->bad0, EVPTR_O(g_b)) && __CPROVER_pointer_equals(sp->next, EVPTR_O(g_K)))
+/* pre-state facts named for the postconditions */
+__CPROVER_requires(g_min == sc_minclk() && g_cnt == CNT(R) && g_head == R->head && g_dj == sc_destj(CNT(R), g_min))
+/* SPECIFICATION of `first`: the most recent window entry strictly earlier than the region, else the oldest entry */
+__CPROVER_requires(g_f == g_K - g_cnt + (g_dj >= 0 ? g_dj : 0))
+/* observers */
+__CPROVER_requires(0 <= g_s && g_s < g_K && 0 <= g_bb && g_bb < SC(g_s) && g_oldbyte == sc_mb(OC(g_s) + g_bb))
+__CPROVER_requires(0 <= g_pos && g_pos < A5_MEM && g_posbyte == a5_mem[g_pos])
+__CPROVER_requires(g_pw_calls == 0 && g_pw_gap == 0 && g_pw_fail == 0 && g_said == 0 && g_die_ok == 0 && g_malloc_fail == 0 && g_qsort_calls == 0 && DIAG_PRE)
+__CPROVER_requires(WBIND(execute_sort_plan, w_K == g_K && w_b == g_b && w_cnt == g_cnt && w_head == g_head && w_dj == g_dj))
+__CPROVER_assigns(__CPROVER_object_whole(a5_mem), __CPROVER_object_whole(a5_slots), __CPROVER_object_whole(g_P), __CPROVER_object_whole(g_perm))
+__CPROVER_assigns(g_pw_calls, g_pw_fd, g_pw_first, g_pw_next, g_pw_gap, g_pw_fail, g_said, DIAG_FRAME, g_die_ok, g_malloc_fail, g_qsort_calls, g_died)
+__CPROVER_ensures(RV == 0 || RV == -1)
+/* fails exactly when no window entry is earlier than the region and the window no longer reaches the start of the
+ * stream; then it says so and has modified nothing */
+__CPROVER_ensures((RV == -1) == (g_dj < 0 && g_cnt >= A5_RN - 1))
+__CPROVER_ensures((RV == -1) == (g_said != 0) && (RV == 0 ? g_err == OLD(g_err) : g_err > OLD(g_err)))
+__CPROVER_ensures(RV != -1 || (a5_mem[g_pos] == g_posbyte && g_pw_calls == 0 && KEPT_ALL(0, 0)))
+/* (success: that `first` is event g_f is asserted where sort_buf / write_stream / rebuild_ring are replaced) */
+/* every byte outside [first, next) is untouched */
+__CPROVER_ensures(RV != 0 || (g_pos >= OC(g_f) && g_pos < OC(g_K)) || a5_mem[g_pos] == g_posbyte)
+/* the region holds a permutation of the whole events that were there: sizes preserved (layout g_P, and the flags
+ * bytes found in memory announce exactly these sizes), and the observed byte of the observed input event sits at the
+ * same position inside the output event that the permutation assigns to it */
+__CPROVER_ensures(RV != 0 || (sc_perm() && sc_wf_out()))
+__CPROVER_ensures(RV != 0 || !(g_s >= g_f) || ((INREG(0) && g_perm[0] == g_s) || (INREG(1) && g_perm[1] == g_s) || (INREG(2) && g_perm[2] == g_s) || (INREG(3) && g_perm[3] == g_s)))
+__CPROVER_ensures(RV != 0 || !(INREG(0) && g_perm[0] == g_s) || sc_mb(g_P[0] + g_bb) == g_oldbyte)
+__CPROVER_ensures(RV != 0 || !(INREG(1) && g_perm[1] == g_s) || sc_mb(g_P[1] + g_bb) == g_oldbyte)
+__CPROVER_ensures(RV != 0 || !(INREG(2) && g_perm[2] == g_s) || sc_mb(g_P[2] + g_bb) == g_oldbyte)
+__CPROVER_ensures(RV != 0 || !(INREG(3) && g_perm[3] == g_s) || sc_mb(g_P[3] + g_bb) == g_oldbyte)
+/* in non-decreasing clock order; the destination event itself (strictly earlier than the region) does not move */
+__CPROVER_ensures(RV != 0 || sc_sorted_out())
+__CPROVER_ensures(RV != 0 || g_dj < 0 || g_perm[g_f] == g_f)
+#ifdef A5_STABLE
+__CPROVER_ensures(RV != 0 || sc_stable_out())
+#endif
+/* the window entries from the destination on point to the moved events, the others are kept; head/tail are not in the frame */
+__CPROVER_ensures(RV != 0 || (REPOINTED_ALL(POSJ(R, (g_dj >= 0 ? g_dj : 0)), g_K - g_f) && KEPT_ALL(POSJ(R, (g_dj >= 0 ? g_dj : 0)), g_K - g_f)))
+/* written to the stream file through sp->fd: one gap-free run of pwrites covering exactly the region */
+__CPROVER_ensures(RV != 0 || (g_pw_fail == 0 && g_pw_gap == 0 && g_pw_calls >= 1 && g_pw_fd == g_fd && g_pw_first == OC(g_f) && g_pw_next == OC(g_K)))
+;
+void h_execute_sort_plan(void)
+{
+	a5_link();
+	WITNESS_ON(execute_sort_plan);
+	int r = execute_sort_plan(&a5_sp);
+	if (r == -1 && w_cnt == w_K) REACH("window full, nothing earlier: cannot sort, says so");
+#if A5_K >= A5_RN
+	if (r == -1 && w_cnt < w_K) REACH("region longer than the look-back window: cannot sort");
+#endif
+	if (r == 0 && w_dj < 0) REACH("window reaches the first event of the stream: sorted from there");
+#if A5_K >= 3 && A5_RN >= 4
+	if (r == 0 && w_dj == 0 && w_b == 1 && w_K == 3 && g_perm[1] == 2 && g_perm[2] == 1) REACH("two events of different sizes exchanged");
+	if (r == 0 && w_head == 2 && w_cnt == 3 && w_dj >= 0) REACH("wrapped ring");
+#endif
+}
+#endif
+
+/* ================================================================= leaves: each callee contract ENFORCED against the real callee */
+#ifdef A5_LEAF_MINCLK
+void h_leaf_find_min_clock(void)
+{
+	__CPROVER_assume(SHAPE && 0 <= g_b && g_b < g_K);
+	uint64_t m = find_min_clock((uint8_t *) EVPTR_O(g_b), (uint8_t *) EVPTR_O(g_K));
+	if (g_K == A5_K && g_b == 0) REACH("minimum over all events of the scene");
+	if (g_b == g_K - 1) REACH("region of one event");
+	if (g_K >= 2 && g_b == 0 && m < CLKAT(a5_mem, A5_O0)) REACH("a later event is the earliest");
+}
+#endif
+#ifdef A5_LEAF_DEST
+void h_leaf_find_destination(void)
+{
+	a5_link();
+	uint64_t clock = nondet_u64();
+	ssize_t i = find_destination(R, clock);
+	long cnt = CNT(R);
+	if (i == -1) REACH("not found in a full window");
+	if (i >= 0 && sc_destj(cnt, clock) < 0) REACH("not found, window reaches the start of the stream");
+	if (i >= 0 && sc_destj(cnt, clock) == 0 && cnt == A5_RN - 1) REACH("found at the oldest entry");
+	if (i >= 0 && R->tail < R->head) REACH("found in a wrapped ring");
+}
+#endif
+#ifdef A5_LEAF_REBUILD
+void h_leaf_rebuild_ring(void)
+{
+	a5_link();
+	long long start = nondet_long();
+	__CPROVER_assume(SHAPE && 0 <= g_f && g_f < g_K);
+	rebuild_ring(R, start, EVPTR_O(g_f), EVPTR_O(g_K));
+	REACH("rebuild_ring returns");
+	if (g_K - g_f == A5_RN - 1) REACH("whole window re-pointed");
+	if (R->tail < start) REACH("positions wrap around the end of the ring");
+}
+#endif
+#ifdef A5_LEAF_CHECK
+void h_leaf_ring_check(void)
+{
+	a5_link();
+	long long start = nondet_long();
+	ring_check(R, start);
+	REACH("ring_check returns on a sorted window");
+	if (g_K - g_f == A5_RN - 1 && R->tail < start) REACH("whole window checked, wrapped");
+}
+#endif
+#ifdef A5_LEAF_WRITE
+/* the source is the LAST `size` bytes of an object of the largest region size: reading past them leaves the object */
+uint8_t a5_src[A5_REGMAX];
+void h_leaf_write_stream(void)
+{
+	a5_link();
+	__CPROVER_assume(sc_pshape());
+	size_t size = (size_t) (OC(g_K) - OC(g_f));
+	int fd = nondet_int();
+	write_stream(fd, a5_mem, EVPTR_O(g_f), a5_src + (A5_REGMAX - size), size);
+	REACH("write_stream returns");
+	if (g_pw_calls >= 3) REACH("three or more short writes");
+	if (g_K - g_f == A5_K && g_pw_calls == 1) REACH("largest region written at once");
+	if (g_pos >= OC(g_f) && g_pos < OC(g_K)) REACH("observer inside the region");
+	if (g_pos >= OC(g_K)) REACH("observer after the region");
+}
+#endif
